@@ -30,6 +30,9 @@ template <class T, size_t N, size_t NM> static void run(const std::string& op, c
   put(*a, v, 0);
   if (op == "fwd") { a->ntt_pow_phi(); show(os, *a); }
   else if (op == "inv") { a->invntt_pow_invphi(); show(os, *a); }
+  else if (op == "geneq") { P* t = alloc_aligned<P, 32>(1); *t = *a; a->ntt_pow_phi(); t->invntt_pow_invphi();
+    for (size_t cm = 0; cm < P::nmoduli; cm++) { for (size_t i = 0; i < P::degree; i++) os << (ull)(*a)(cm, i) << " "; for (size_t i = 0; i < P::degree; i++) os << (ull)(*t)(cm, i) << " "; }
+    free_aligned(1, t); }
   else if (op == "rt_fi") { a->ntt_pow_phi(); a->invntt_pow_invphi(); show(os, *a); }
   else if (op == "rt_if") { a->invntt_pow_invphi(); a->ntt_pow_phi(); show(os, *a); }
   else if (op == "mul" || op == "mulshoup") {
